@@ -113,10 +113,12 @@ def split_logs(recs, wd, tag):
             for k, v in STEP_DEF.items():
                 c.setdefault(k, v)
             conf.append(c)
-        if ev in ("reset", "atomic", "cell", "release", "created"):
-            c = {k: r[k] for k in r if k in keep}
+        if ev in ("reset", "atomic", "cell", "release", "created", "end"):
+            c = {k: r[k] for k in r if k in keep + ("outcome", "pool_len")}
             for k, v in STEP_DEF.items():
                 c.setdefault(k, v)
+            c.setdefault("outcome", "-")
+            c.setdefault("pool_len", -1)
             rc.append(c)
     p = {}
     for name, data in (("api", api), ("conf", conf), ("rc11", rc)):
